@@ -2,6 +2,7 @@ package varmq
 
 import (
 	"context"
+	"math"
 	"time"
 
 	"github.com/goptics/varmq/utils"
@@ -147,6 +148,9 @@ func withSafeConcurrency(concurrency int) uint32 {
 	// If concurrency is less than 1, use the number of CPUs as the concurrency
 	if concurrency < 1 {
 		return utils.Cpus()
+	}
+	if uint64(concurrency) > math.MaxUint32 {
+		return math.MaxUint32
 	}
 	return uint32(concurrency)
 }
